@@ -56,13 +56,15 @@ func (s *sliceStore) Delete(config.GroupVersionKind, string, string, *string) er
 }
 
 type sut struct {
-	root  string
-	pas   []paIn
-	ap    *model.AuthenticationPolicies // built lazily from pas
-	push  *model.PushContext
-	watch *meshwatcher.TestWatcher
-	av    *ambientView
-	vers  map[string]int // real GetVersion() strings seen in this case -> index of first appearance
+	root    string
+	pas     []paIn
+	ap      *model.AuthenticationPolicies // built lazily from pas
+	push    *model.PushContext
+	watch   *meshwatcher.TestWatcher
+	av      *ambientView
+	vers    map[string]int // real GetVersion() strings seen in this case -> index of first appearance
+	live    *e2eWorld      // op hc: the FakeDiscoveryServer kept for the rest of the case
+	liveAmb *ambWorld      // op aw: the ambient index kept for the rest of the case
 }
 
 // versionIndex: the hash itself cannot be predicted by the model; both sides print the index of the
